@@ -383,7 +383,13 @@ pub fn scenario(id: u64, seed: u64, thorough: bool) -> Vec<Value> {
     let mut te = t_browse + r.range(1500, 4000);
     let mut tables: Vec<(u64, Vec<IfSpec>)> = vec![(0, cur.clone())];
     for _ in 0..nev {
-        if r.chance(3, 5) {
+        let dual: Vec<&IfSpec> = cur.iter().filter(|i| i.up && i.addrs.iter().any(|(a, _)| a.is_ipv4()) && i.addrs.iter().any(|(a, _)| a.is_ipv6())).collect();
+        if !dual.is_empty() && r.chance(1, 5) {
+            // one IP family of a dual-stack interface is disabled (what was learned over it must no longer be reported)
+            let i = *r.pick(&dual);
+            let k = if r.chance(1, 2) { Kind::IndexV6(i.index) } else { Kind::IndexV4(i.index) };
+            run.at(te, Act::IfSelect(false, k));
+        } else if r.chance(3, 5) {
             let (n, _what) = mutate(&mut r, &cur);
             cur = n;
             tables.push((te, cur.clone()));
